@@ -316,6 +316,38 @@ func (c *Ctx) cod8() {
 		} else {
 			a.failAt(c.P.Pos(rsv.Pos()), "the rugged Save does not store exactly the encoded value with a freshly incremented sequence number")
 		}
+		// one value, one delegate Save, its verdict returned: a net.Buffers
+		// value is consumed by whoever writes it (WriteTo empties it), so a
+		// second Save of the same value stores nothing and reports success
+		once := c.acc("COD-8", rsv, "one-delegate-Save-per-call,its-error-returned")
+		for _, p := range c.Paths("COD-8", rsv) {
+			if p.End != pathx.KReturn {
+				continue
+			}
+			last := len(p.Events) - 1
+			var saves []int
+			for i := range p.Events {
+				if persistenceOp(&p.Events[i]) == "Save" {
+					saves = append(saves, i)
+				}
+			}
+			switch {
+			case len(saves) == 0:
+				once.fail(p, last, "the rugged Save returns without having called the delegate's Save")
+			case len(saves) > 1:
+				once.fail(p, saves[1], "the delegate's Save is called a second time on this path: the first call may have consumed the buffers (net.Buffers.WriteTo empties its receiver) or left a partial record, and the retry's success is reported for a value that was not stored")
+			default:
+				res := p.Events[last].Results
+				if len(res) == 1 && derivesFromB(res[0], pathx.ErrResult(p.Events[saves[0]].Result), pathBindings(p), 0) {
+					once.pass()
+				} else if len(res) == 1 && res[0] == p.Events[saves[0]].Result {
+					once.pass()
+				} else {
+					once.fail(p, last, "the rugged Save returns %s instead of the delegate's verdict", Expr(res[0]))
+				}
+			}
+		}
+		once.done(1, "exactly one delegate Save on every path, and its result is the result")
 		a.done(1, "every saved value carries a new sequence number and the checksum")
 	}
 }
@@ -453,8 +485,24 @@ func (c *Ctx) cod9(which map[string]bool) {
 					n++
 					k := stripConv(call.Call.Args[0])
 					key := "COD-11|" + name + "|" + call.Call.Method.Name() + "-key"
+					// the key computed by an accessor introduced later (id.key()):
+					// judged on what it returns, with its parameters read as the arguments
+					sub := func(v ssa.Value) ssa.Value { return v }
+					if hc, isCall := k.(*ssa.Call); isCall {
+						if ret, bind, ok := c.singleReturnHelper(hc); ok {
+							k = stripConv(ret)
+							sub = func(v ssa.Value) ssa.Value {
+								if pr, isP := stripConv(v).(*ssa.Parameter); isP {
+									if a, has := bind[pr]; has {
+										return a
+									}
+								}
+								return v
+							}
+						}
+					}
 					or, isOr := k.(*ssa.BinOp)
-					okK := isOr && or.Op == token.OR && (isK(or.Y, flag) && parsedID(or.X) || isK(or.X, flag) && parsedID(or.Y))
+					okK := isOr && or.Op == token.OR && (isK(or.Y, flag) && parsedID(sub(or.X)) || isK(or.X, flag) && parsedID(sub(or.Y)))
 					if okK {
 						c.S.OK("COD-11", key, c.P.Pos(call.Pos()), name, "marker key = identifier parsed from the packet | remoteIDKeyFlag", true)
 					} else {
@@ -484,4 +532,36 @@ func sprintfFormat(fn *ssa.Function) string {
 		}
 	}
 	return ""
+}
+
+// singleReturnHelper: for a call of a helper introduced later that has
+// exactly one return statement with one result, that result and the binding
+// of the helper's parameters to the arguments of this call.
+func (c *Ctx) singleReturnHelper(call *ssa.Call) (ret ssa.Value, bind map[*ssa.Parameter]ssa.Value, ok bool) {
+	f := call.Call.StaticCallee()
+	if f == nil || !c.isNewHelper(f) {
+		return nil, nil, false
+	}
+	n := 0
+	for _, b := range f.Blocks {
+		for _, ins := range b.Instrs {
+			if r, isR := ins.(*ssa.Return); isR {
+				if len(r.Results) != 1 {
+					return nil, nil, false
+				}
+				ret = r.Results[0]
+				n++
+			}
+		}
+	}
+	if n != 1 {
+		return nil, nil, false
+	}
+	bind = map[*ssa.Parameter]ssa.Value{}
+	for i, pr := range f.Params {
+		if i < len(call.Call.Args) {
+			bind[pr] = call.Call.Args[i]
+		}
+	}
+	return ret, bind, true
 }
